@@ -1210,7 +1210,32 @@ def sniffers_agree(repo, tier):
     return {"obligations": obls, "functions": []}
 
 
-EXTRA = [_site_runner(i) for i in range(len(SITES))] + [image_sites, sniffers_agree]
+def seq_lemmas(repo, tier):
+    """Sequence lemmas used (assumed) by the inner-loop invariants of the views: t[:j+1] == t[:j] ++ [t[j]], t[:len t] == t, t[:0] == [].
+    Discharged by cvc5 first (0.02 s each; z3's sequence solver needs between 0.05 s and its timeout on the same formula), z3 as fallback."""
+    from pyvc import solve
+    import time
+    out = []
+    jj = z3.Int("j")
+    for sort in sorted({v[2] for v in VIEWS.values()} | {v[2] for v in NESTED_IMAGES.values()} | set(FLAT_IMAGES.values()) | {TABLE}):
+        t = z3.Const("t", z3.SeqSort(ext_sort(sort)))
+        parts = prefix_ext(t, jj).children()
+        for label, goal in ((f"prefix-extension-{sort.strip('_')}", parts[0]), (f"prefix-whole-and-empty-{sort.strip('_')}", z3.And(parts[1:]))):
+            t0 = time.time()
+            sv = z3.Solver()
+            sv.add(z3.Not(goal))
+            smt2 = "\n".join(l for l in sv.to_smt2().splitlines() if not l.startswith("(check-sat)") and not l.startswith("(set-info") and not l.startswith("; benchmark"))
+            r = solve._cvc5(smt2, 10.0)
+            backend, status = "cvc5", ("proved" if r == "unsat" else "unknown")
+            if status != "proved":
+                rr = solve.check_vc([], goal, None, want_model=False)
+                backend, status = rr.backend, ("proved" if rr.status == "proved" else "unknown")
+            out.append({"id": f"C14/data_types.py::sequences/lemma#{label}", "kind": "lemma", "status": status, "vcs": 1, "seconds": round(time.time() - t0, 4),
+                        "backends": {backend: 1}, "witness": None, "reason": "", "loc": "spec"})
+    return {"obligations": out, "functions": []}
+
+
+EXTRA = [_site_runner(i) for i in range(len(SITES))] + [image_sites, sniffers_agree, seq_lemmas]
 
 
 def lemmas():
@@ -1226,12 +1251,6 @@ def lemmas():
         return z3.Implies(z3.And(x >= 0, x + 10 > N), j.KIND(x) == SP.OTHER)
     out = [("C14/image_utils.py::jpeg-chain/lemma#no-frame-header-in-the-last-9-bytes",
             [N >= 0, X.byte_range(D), o >= 0, j.defn(o), ih(o + 1), ih(o + 2 + L)], ih(o))]
-    jj = z3.Int("j")
-    for sort in sorted({v[2] for v in VIEWS.values()} | {v[2] for v in NESTED_IMAGES.values()} | set(FLAT_IMAGES.values()) | {TABLE}):
-        t = z3.Const("t", z3.SeqSort(ext_sort(sort)))
-        parts = prefix_ext(t, jj).children()
-        out.append((f"C14/data_types.py::sequences/lemma#prefix-extension-{sort.strip('_')}", [], parts[0]))
-        out.append((f"C14/data_types.py::sequences/lemma#prefix-whole-and-empty-{sort.strip('_')}", [], z3.And(parts[1:])))
     return out
 
 
